@@ -44,18 +44,19 @@ claim('C01',
 
 claim('C02',
       'TLA+ spec XlSyntax (AST, Render, MinParen, Erase); TLC enumerates AST families, renders the text and states the expected tree; '
-      'dump replayed through FormulaParser.parse and XLFormula; seeded random ASTs validated by TLC (Trace_Parse); the tokenizer as '
-      'an explicit state machine (XlTokenizer, one action per branch of the character loop and per pass): TLC proves it refines '
-      'the syntax spec on the well-formed families (RefinesSyntax) and runs it on every short string over 6 alphabets, finished '
-      'and failed states replayed into ExcelParser.getTokens; recorded tokenizations validated by Trace_Tokens, which reuses the '
-      'machine actions',
+      'dump replayed through FormulaParser.parse and XLFormula; seeded random ASTs validated by TLC (Trace_Parse); tokenizer and '
+      'parser as explicit composed state machines (XlTokenizer: one action per branch of the character loop and per pass; XlParser: '
+      'shunting yard with were_values / arg_count and the tree construction): TLC proves on the well-formed families that the '
+      'machines refine the syntax spec (RefinesSyntax, RefinesTree, RpnIsPostOrder) and runs them on every short string over 6 '
+      'alphabets; finished and failed states replayed into ExcelParser.getTokens / shunting_yard / build_ast (token list, reverse '
+      'polish list with argument counts, tree); recorded parses validated by Trace_Parser, which reuses the actions of both machines',
       'Exhaustive over: every atom kind (numbers in 5 spellings, strings, booleans, all 7 error literals, references in every $ / '
       'sheet-qualification spelling incl. quoted names, ranges, calls) in every one of 15 contexts nested two levels deep, every '
       'string of length <= 2 (thorough 3) over the tokenizer delimiter alphabet in 6 contexts, call arities 0..4 with nested calls '
       'and leading @, every gap class x gap kind (blank, two blanks, newline; leading and trailing included) and a missing "=". The '
       'parse tree is walked through public node attributes and must equal the AST with parentheses erased; seeded random ASTs of up '
       'to 14 nodes with random styles are parsed and validated by TLC, which also re-renders each tree (generator held to the spec). '
-      'Tokenizer machine: every string of length <= 4 (thorough 5; 5/6 for the error alphabet) over six 5-8 character alphabets '
+      'Front-end machines: every string of length <= 3-5 (thorough one more) over six 5-8 character alphabets '
       '(numbers/percent/scientific, calls, quoting modes, comparators, array constants, error literals) with and without "=", '
       'malformed text included (the machine fails exactly where the code raises IndexError); every formula of the fixture '
       'workbooks as the reader hands it to the tokenizer, generated formulas, and a one-character mutilation of each.',
